@@ -33,10 +33,11 @@ OnVec(s, e) ==
                    [werr |-> e.werr, declared_lengths_match_bytes |-> Framed(e.wb), wn |-> e.wn, wantn |-> Len(want), firstdiff |-> FirstDiff(e.wb, want),
                     zero_length_field |-> \E i \in DOMAIN e.ds : e.ds[i].len = 0]))
       s2 == RepIf(e.calc # Len(want) - 2, s1, V("length-calculator-differs", s, e, [calc |-> e.calc, want |-> Len(want) - 2]))
-      s3 == RepIf(wok /\ (e.gerr # "nil" \/ ~SameAll(e.got, e.ds)), s2, V("parse-differs-from-value", s, e, [gerr |-> e.gerr]))
+      full == "wonly" \notin DOMAIN e       \* (write direction only for values a parser does not yield back unchanged)
+      s3 == RepIf(full /\ wok /\ (e.gerr # "nil" \/ ~SameAll(e.got, e.ds)), s2, V("parse-differs-from-value", s, e, [gerr |-> e.gerr]))
       \* got2: the same bytes parsed again after every byte slice of the first result was overwritten by its owner
-      s4 == RepIf(wok /\ e.gerr = "nil" /\ "got2" \in DOMAIN e /\ ~SameAll(e.got2, e.ds), s3, V("parse-depends-on-earlier-results", s, e, [n |-> Len(e.got2)]))
-  IN RepIf(wok /\ e.gerr = "nil" /\ (e.goff # Len(want) \/ \E i \in DOMAIN e.got : i \in DOMAIN e.got /\ i \in DOMAIN e.ds /\ e.got[i].len # Len(Body(e.ds[i]))), s4,
+      s4 == RepIf(full /\ wok /\ e.gerr = "nil" /\ "got2" \in DOMAIN e /\ ~SameAll(e.got2, e.ds), s3, V("parse-depends-on-earlier-results", s, e, [n |-> Len(e.got2)]))
+  IN RepIf(full /\ wok /\ e.gerr = "nil" /\ (e.goff # Len(want) \/ \E i \in DOMAIN e.got : i \in DOMAIN e.got /\ i \in DOMAIN e.ds /\ e.got[i].len # Len(Body(e.ds[i]))), s4,
            V("parsed-length-or-offset", s, e, [goff |-> e.goff, want |-> Len(want)]))
 
 OnMal(s, e) ==
